@@ -316,4 +316,74 @@ theorem init_exec (e : Env F) (s : State F) (hs : s.ctl = .run) (hi : SrchIn e s
     all_goals first
       | (simp [initA, setS_apply, hct, sumI, flDist, sqDist, getD_replicate_lt _ _ _ _ hlt]; done)
 
+theorem walk_length_le {par : Cell → Option Cell} {s : Cell} :
+    ∀ {n : Nat} {c : Cell} {l : List Cell}, walk par s n c = some l → l.length ≤ n
+  | 0, _, _, h => by simp [walk] at h
+  | n + 1, c, l, h => by
+    simp only [walk] at h
+    split at h
+    · simp at h; subst h; simp
+    · split at h
+      · simp at h
+      · simp only [Option.map_eq_some_iff] at h
+        obtain ⟨t, ht, rfl⟩ := h
+        have := walk_length_le ht
+        simp; omega
+
+/-- **`Gen.IL.aStarSearch` computes the hand model `AStar.search`.**  For well-formed inputs (`SrchIn`: `data` and
+    `path_img` are `h × w`, the start cell lies in the raster, `e` is the model environment the arrays describe) and
+    enough `while` fuel:
+    * if the model returns `path chain g` (and the chain lies in the raster, which `C14.path_is_chain` proves), the
+      program returns and has written `g c` into `path_img[c]` for exactly the cells `c` of the chain;
+    * if the model returns `noPath`, the program returns with `path_img` untouched;
+    * nothing is claimed when the model reports the anomaly of `_min_cost_pixel_id` returning `(NONE, NONE)` while a
+      cell is open (the program then indexes `[-1][-1]`; excluded for exact costs by `C14.astar_exact`). -/
+theorem aStarSearch_refines (e : Env F) (s : State F) (fuel : Nat) (hs : s.ctl = .run) (hi : SrchIn e s)
+    (hlen : (s.fa "path_img").length = e.h * e.w) (hfuel : 2 * (e.h * e.w) + 1 ≤ fuel) :
+    let r := Gen.IL.aStarSearch.run s fuel
+    match search e with
+    | .path chain g => (∀ c ∈ chain, inside e.h e.w c = true) →
+        r.ctl = .ret ∧ (r.fa "path_img").length = e.h * e.w ∧
+        ∀ c, inside e.h e.w c = true → ∀ d, (r.fa "path_img").getD (cidx e.w c) d =
+          if c ∈ chain then g c else (s.fa "path_img").getD (cidx e.w c) d
+    | .noPath => r.ctl = .ret ∧ r.fa "path_img" = s.fa "path_img"
+    | .anomaly _ => True := by
+  intro r
+  obtain ⟨s0, h0, hl0, hp0⟩ := init_exec e s hs hi fuel
+  have hr : r = exec fuel searchTail s0 := by
+    show exec fuel Gen.IL.aStarSearch.body s = _
+    rw [aStarSearch_body, h0]
+  have hm := main_loop e (e.h * e.w + 1) (AStar.init e) s0 fuel hl0 (by omega)
+  unfold search
+  cases hloop : loop e (e.h * e.w + 1) (AStar.init e) with
+  | found st =>
+    simp only []
+    cases hwalk : walk st.parent e.start (e.h * e.w) e.goal with
+    | none => simp
+    | some chain =>
+      simp only []
+      intro hin
+      obtain ⟨hret, garr, hg, hpath⟩ := hm.1 st hloop _ chain hwalk hin (walk_length_le hwalk)
+      have hr' : r = exec fuel mainLoop s0 := by
+        rw [hr, searchTail, exec_seq_stop _ _ _ _ (by rw [hret]; simp)]
+      have hlast := walk_last hwalk
+      have hsin : inside e.h e.w e.start = true := hi.start_in
+      rw [hr', hpath, hp0]
+      refine ⟨hret, by rw [chainW_length, hlen], ?_⟩
+      intro c hc d
+      rw [chainW_getD _ e.h e.w _ _ hlen (fun x hx => by
+        rcases List.mem_cons.1 hx with rfl | hx
+        · exact hsin
+        · exact hin x (List.dropLast_subset _ hx)) c hc d]
+      simp only [mem_start_dropLast hlast, hg c hc]
+  | exhausted st =>
+    simp only []
+    obtain ⟨hrun, hpath⟩ := hm.2 st hloop
+    have hr' : r = { exec fuel mainLoop s0 with ctl := .ret } := by
+      rw [hr, searchTail, exec_seq_run _ _ _ _ hrun]; simp [exec]
+    rw [hr']
+    exact ⟨rfl, by rw [← hp0, ← hpath]⟩
+  | sentinel st => simp
+  | fuel st => simp
+
 end XrsVerif.IL
